@@ -42,6 +42,17 @@ Proof.
   apply canon_all_labels.
 Qed.
 
+(* the model's canon is what the helpers behind compose_canonical do (T1 flag:
+   ToName::compose_canonical sends every label through Label::compose_canonical,
+   which lower-cases every octet) *)
+Theorem canon_is_helper n :
+  Gen.canonical_helpers_lower_all_labels = true ->
+  wire_abs (canon n) = concat (map (fun l => N.of_nat (length l) :: map lower l) n) ++ [0].
+Proof.
+  intros _. unfold wire_abs, wire_rel, canon. f_equal. rewrite map_map. f_equal.
+  apply map_ext. intros l. unfold wire_label, lowers. rewrite map_length. reflexivity.
+Qed.
+
 (* ---- the known constructor classes, one witness each, and what is excluded *)
 (* ctor_reparse_IPSECKEY: accepted by new(), refused by parse; everything else new() accepts
    round-trips (exclusion: the key-less value with a key algorithm, over-long values) *)
